@@ -33,6 +33,13 @@ def setup():
     CR.setup_pipeline()
 
 
+WIDE = [1, 3, 33, 50, 51, 99, 100, 101, 128, 250]  # column counts around 100 // ncols reaching 1 and 0
+
+
+def _wide_table(k):
+    return ["|" + "|".join(" h%d " % i for i in range(k)) + "|", "|" + "|".join(["---", ":-:", "--:"][i % 3] for i in range(k)) + "|", "|" + "|".join(" %d " % i for i in range(k)) + "|", "| short |"]
+
+
 def leaf_lines(kind, n):
     return {
         "para": ["P%d text" % n],
@@ -50,6 +57,7 @@ def leaf_lines(kind, n):
         "table": ["| a | b |", "|---|---|", "| 1 | 2 |"],
         "table-ragged": ["| a | b |", "|---|---|", "| 1 |", "| 1 | 2 | 3 |"],
         "code": ["```", "C%d" % n, "```"],
+        **{"table-c%d" % k: _wide_table(k) for k in WIDE},
         "inline-html": ["I%d <b>bold</b> and <i>it</i>" % n],
         "target-a-quote-fn": ["(a)=", "> [^n]: D%d quoted note" % n],  # a target propagated onto a block quote that holds only a footnote definition
         "h2-cjk": ["## \u6982\u8981"],  # a title whose docutils id is auto-generated (make_id gives nothing)
@@ -281,6 +289,8 @@ def families(tier, seed):
     F = []
     F.append(Family("flat/B2", make, "all pairs of top-level blocks from %r" % (LEAF,), args=dict(depth=0, nblocks=2), nontrivial=None, max_forks=400000))
     F.append(Family("nested/D1-B1", make, "one block, containers %r holding 1-2 leaf blocks" % (CONT,), args=dict(depth=1, nblocks=1), nontrivial="nested", max_forks=400000))
+    F.append(Family("tables/wide", make, "one pipe table of %r columns (header, aligned delimiter row, full row, short row) at top level or inside quote / list item / note" % (WIDE,),
+                    args=dict(depth=1, nblocks=1, leaf=["table-c%d" % k for k in WIDE]), nontrivial="nested", max_forks=400000))
     NUM = ["fnref-2", "fndef-2", "target-2", "h1-2", "fndef", "fnref-a"]
     F.append(Family("names-numeric/B3", make, "all triples of blocks from %r (a numeric footnote label that is also the name of a target / heading)" % (NUM,), args=dict(depth=0, nblocks=3, leaf=NUM), nontrivial=None, max_forks=400000))
     F.append(Family("names/B3", make, "all triples of blocks from %r (footnote labels, explicit targets and headings sharing a name)" % (NAMES,), args=dict(depth=0, nblocks=3, leaf=NAMES), nontrivial=None, max_forks=400000))
